@@ -88,19 +88,25 @@ def predict_order(P: Dict[str, Any], cp: Dict[str, int], within: Optional[List[s
     return done
 
 
+def _alive(case: Dict[str, Any]) -> List[str]:
+    """Sites a whole-DAG call executes: all of them, minus the debug sites when RUN_DEBUG_NODES is off."""
+    P = case["prog"]
+    return [s["site"] for s in P["body"] if case.get("debug") or not P["fns"][s["fn"]].get("debug")]
+
+
 def _judge(res: CaseResult, tagp: str, case: Dict[str, Any], r: Dict[str, Any], exp0: Dict[str, int], exp: Dict[str, int]) -> None:
     P = case["prog"]
     if r["t0"] != exp0:
         res.viol("table", f"[{tagp}] compound priority {r['t0']} != definition {exp0}")
     if "order0" in r:
-        pred = predict_order(P, exp0)
+        pred = predict_order(P, exp0, _alive(case))
         if r["order0"][: len(pred)] != pred:
             res.viol("order", f"[{tagp}] execution order {r['order0']} != predicted tie-free prefix {pred}")
     if case.get("reconf") is not None:
         if r.get("t1") != exp:
             res.viol("table-reconf", f"[{tagp}] after config_from_dict: {r.get('t1')} != definition {exp}")
         if "order1" in r:
-            pred = predict_order(P, exp)
+            pred = predict_order(P, exp, _alive(case))
             if r["order1"][: len(pred)] != pred:
                 res.viol("order-reconf", f"[{tagp}] execution order {r['order1']} != predicted tie-free prefix {pred}")
     if case.get("sel") is not None and "sel_error" not in r:
@@ -139,6 +145,11 @@ def run_case(case: Dict[str, Any]) -> CaseResult:
     cls = ["plain"]
     if len(predict_order(P, exp0)) == len(deps):
         cls.append("tie-free-order")
+    if any(f.get("debug") for f in P["fns"].values()):
+        cls.append("debug-sites-flag-" + ("on" if case.get("debug") else "off"))
+        if case.get("sel") is not None and case.get("debug") and any(
+                P["fns"][s["fn"]].get("debug") and s["site"] in base.get("insel", []) for s in P["body"]):
+            cls.append("debug-site-in-subgraph")
     if case.get("reconf") is not None:
         cls.append("reconf")
     if case.get("sel") is not None:
@@ -153,10 +164,19 @@ def run_case(case: Dict[str, Any]) -> CaseResult:
 # ------------------------------------------------------------------------------- generators
 @st.composite
 def cases(draw: Any) -> Dict[str, Any]:
+    n_debug = draw(st.sampled_from([0, 0, 1, 2]))
     P = draw(gen.flat_prog(min_sites=2, max_sites=10, max_deps=3, prio_range=(-4, 9), random_names=True,
-                           mark_roots=False))
+                           mark_roots=False, n_debug=n_debug))
     sites = [s["site"] for s in P["body"]]
     case: Dict[str, Any] = {"prog": P}
+    if n_debug:
+        # debug sites carry priorities like any other node; with RUN_DEBUG_NODES on the debug rule may add them to a
+        # sub-graph run, where they are scheduled by the same table (a debug site without constant arguments can be
+        # pulled in, so most of them lose the site marker)
+        case["debug"] = draw(st.booleans())
+        for s in P["body"]:
+            if P["fns"][s["fn"]].get("debug") and (s["args"] or s["kwargs"]) and draw(st.sampled_from([True, True, False])):
+                s["mark"] = False
     if draw(st.sampled_from([True, False, False])):
         case["async"] = True  # AsyncDAG / AsyncDAGExecution flavour of the same questions
     mode = draw(st.sampled_from(["plain", "reconf", "sel", "sel", "reconf+sel"]))
